@@ -75,7 +75,9 @@ UStep(L, R, st) ==
         Ext(ixs) == UExtendLpm(L, R, top.ll, top.lr, ixs)
     IN CASE x.k = "Both" ->
               [st |-> s0 \o Ext(UNextIdx(L, R, L.a[x.l].r, R.a[x.r].r)) \o Ext(UNextIdx(L, R, L.a[x.l].l, R.a[x.r].l)),
-               item |-> UItem(L.a[x.l].p, L.a[x.l].v, R.a[x.r].v, top.ll, top.lr)]
+               \* the reported prefix is one that is stored: the left one if the left node holds a value
+               item |-> UItem(IF L.a[x.l].v # NoVal THEN L.a[x.l].p ELSE R.a[x.r].p,
+                              L.a[x.l].v, R.a[x.r].v, top.ll, top.lr)]
          [] x.k = "FirstL" ->
               [st |-> s0 \o Ext(UNextFirstL(L, R, x.l, x.r)),
                item |-> UItem(L.a[x.l].p, L.a[x.l].v, NoVal, top.ll, top.lr)]
